@@ -154,7 +154,7 @@ fn concurrent_phase(a: &Args, m: &mut Mon, sink: &mut Sink) {
         jobs.push(Box::new(move || vec![p.evaluate(x)]));
         meta.push(CMeta { form: "PolyN", log: false, c, x, cc, xc });
     }
-    match ppv::conc::run(&jobs, 4, if a.thorough() { 300 } else { 60 }, 4) {
+    match ppv::conc::run(&jobs, 4, if a.thorough() { 400 } else { 150 }, 4) {
         Err(pn) => m.panic("evaluate panic (concurrent lane)", &pn, || json!({"lane": "concurrent"})),
         Ok((res, st)) => {
             m.add("concurrent_calls", st.calls);
